@@ -67,7 +67,11 @@ def compile (k : Kind) (v : ObjV) : Mut → List GOp
       match k with
       | .g1 | .coord => [.setFresh 0 f]
       | _ => [.setFresh 0 f, .setFresh 1 e]
-  | .boundsSet mins maxs => [.wrAll 0 mins, .wrAll 1 maxs]
+  | .boundsSet mins maxs =>
+      -- Bounds.Set assigns the first len(args)/2 dimensions; a box that holds more keeps the rest
+      let cur0 := (v.slices.getD 0 none).getD []
+      let cur1 := (v.slices.getD 1 none).getD []
+      [.wrAll 0 (mins ++ cur0.drop mins.length), .wrAll 1 (maxs ++ cur1.drop maxs.length)]
 
 /-- Run a geometry-level history: each mutator is compiled against the current value of the
 object it addresses, then executed in the heap and in the value semantics. -/
